@@ -1,10 +1,12 @@
 #!/bin/sh
+# (VERIF_DIR / REPO_DIR select a scratch copy of the harness and a scratch worktree instead of /verif and /repo)
 # Runs the quick checks against every seeded change under /verif/seeded and reports which checks
 # raise a VIOLATION. Usage: tools/run_seeded.sh [name ...] ; env CHECKS="C01 C02" restricts the checks,
 # TIER=thorough selects the tier. /repo is restored afterwards (git checkout -- .).
-cd /verif || exit 2
-if [ -n "$(git -C /repo status --porcelain --untracked-files=no)" ]; then echo "/repo has uncommitted changes; refusing"; exit 2; fi
-trap 'git -C /repo checkout -- . ; git -C /repo clean -fdq -- src tests' EXIT INT TERM
+V=${VERIF_DIR:-/verif}; R=${REPO_DIR:-/repo}
+cd $V || exit 2
+if [ -n "$(git -C $R status --porcelain --untracked-files=no)" ]; then echo "/repo has uncommitted changes; refusing"; exit 2; fi
+trap 'git -C $R checkout -- . ; git -C $R clean -fdq -- src tests' EXIT INT TERM
 NAMES="$*"
 : > seeded/matrix.new
 [ -z "$NAMES" ] && NAMES=$(ls seeded | grep -v '\.md$')
@@ -18,13 +20,13 @@ for n in $NAMES; do
   own=$(python3 -c "import json;m=json.load(open('$d/meta.json'));print(' '.join(sorted(set([m['property']]+m['detected_by_quick_checks']))))" 2>/dev/null)
   cs=${CHECKS:-$own}
   [ "$cs" = "all" ] && cs="C01 C02 C03 C04 C05 C06 C07 C08 C09 C10 C11 C12 C13 C14"
-  git -C /repo checkout -- . && git -C /repo apply "$PWD/$d/patch.diff" || { echo "$n: patch does not apply"; continue; }
+  git -C $R checkout -- . && git -C $R apply "$PWD/$d/patch.diff" || { echo "$n: patch does not apply"; continue; }
   hits=""
   for c in $cs; do
     out=$(./check $c $TIER 2>/dev/null); rc=$?
     if [ $rc -eq 1 ]; then hits="$hits $c"; elif [ $rc -ne 0 ]; then hits="$hits $c(rc=$rc)"; fi
   done
-  git -C /repo checkout -- .
+  git -C $R checkout -- .
   echo "SEEDED $n breaks=$prop detected_by:${hits:- NONE}" | tee -a seeded/matrix.new
 done
 
